@@ -1,28 +1,25 @@
 #!/bin/bash
 # Re-evaluates every kept seeded change in /verif/seeded against the CURRENT checks (quick tier, scratch worktrees).
+# The checks to run for a change are read from its meta.json (property_broken + every check listed under detection).
 # usage: eval_all_seeded.sh [parallelism]   -> /tmp/mw-final.log ; then tools/collect_seeded.py refreshes INDEX.md
 PAR=${1:-3}
 cd /verif
-declare -A CHK=(
- [C01A]="C01" [C01B]="C01" [C02A]="C02" [C02B]="C02" [C03A]="C03 C02" [C03B]="C11 C03" [C04A]="C04 C19" [C04B]="C04"
- [C05A]="C05" [C05B]="C05 C04" [C06A]="C06 C13" [C06B]="C06 C13" [C07A]="C07" [C07B]="C07 C19" [C08A]="C08" [C08B]="C08"
- [C09A]="C09" [C09B]="C09" [C10A]="C10" [C10B]="C10 C02" [C11A]="C11" [C11B]="C11" [C12A]="C12" [C12B]="C12 C09"
- [C13A]="C13" [C13B]="C13" [C14A]="C14 C15" [C14B]="C14 C01" [C15A]="C15 C14" [C15B]="C15 C18" [C16A]="C16" [C16B]="C16 C14"
- [C17A]="C17" [C17B]="C17" [C18A]="C18" [C18B]="C18" [C19A]="C19" [C19B]="C19" [S00]="C14"
-)
 : > /tmp/mw-final.log
 n=0
+C20LIST=""
 for d in seeded/*/; do
   name=$(basename $d)
   [ -f $d/patch.diff ] || continue
-  [[ "$name" == C20* ]] && continue
-  checks=${CHK[$name]:-${name:0:3}}
+  [[ "$name" == BENIGN* ]] && continue
+  checks=$(jq -r '[.property_broken] + ((.detection // {}) | keys) | unique | join(" ")' $d/meta.json)
+  if echo " $checks " | grep -q " C20 "; then C20LIST="$C20LIST $name"; checks=$(echo $checks | sed 's/C20//'); fi
+  [ -z "$(echo $checks | tr -d ' ')" ] && continue
   ( tools/eval_mut.sh $d/patch.diff $name $checks >> /tmp/mw-final.log 2>&1 ) &
   n=$((n+1)); if (( n % PAR == 0 )); then wait; fi
 done
 wait
 # C20 legs share the Miri target directory: strictly one at a time
-for name in C20A C20B; do
-  [ -f seeded/$name/patch.diff ] && tools/eval_mut.sh seeded/$name/patch.diff $name C20 >> /tmp/mw-final.log 2>&1
+for name in $C20LIST; do
+  tools/eval_mut.sh seeded/$name/patch.diff $name C20 >> /tmp/mw-final.log 2>&1
 done
 grep -E "exit=" /tmp/mw-final.log | sort
